@@ -123,21 +123,29 @@ def setCI (k v : Str) (l : List (Str × Str)) : List (Str × Str) :=
   else l ++ [(lowerStr k, v)]
 
 /-- the default-able content types occurring among the parts for one (lower-cased) extension -/
-def defaultTypesOfExt (dct : List (Str × Str)) (parts : List (Str × Str)) (ext : Str) : List Str :=
-  ((parts.filter fun pn => lowerStr (PackUri.ext pn.1) == lowerStr ext && inDefaults dct (PackUri.ext pn.1) pn.2).map
-    (·.2)).eraseDups
+def eligibleTypes (dct : List (Str × Str)) (parts : List (Str × Str)) (ext : Str) : List Str :=
+  (parts.filter fun pn => lowerStr (PackUri.ext pn.1) == lowerStr ext && inDefaults dct (PackUri.ext pn.1) pn.2).map
+    (·.2)
 
-/-- `_ContentTypesItem._defaults_and_overrides` (with the `fix:` for F-C01-1: a Default is used for
-    an extension only when all default-able parts of that extension agree on the type) -/
+/-- `len(set(l)) == 1`: non-empty and all equal -/
+def oneType : List Str → Bool
+  | [] => false
+  | x :: xs => xs.all (· == x)
+
+/-- a part is written as a Default when its (extension, type) is a known default pair and every
+    default-able part with that extension has the same type (the `fix:` for F-C01-1) -/
+def isDef (dct : List (Str × Str)) (all : List (Str × Str)) (pn : Str × Str) : Bool :=
+  inDefaults dct (PackUri.ext pn.1) pn.2 && oneType (eligibleTypes dct all (PackUri.ext pn.1))
+
+def ctStep (dct : List (Str × Str)) (all : List (Str × Str))
+    (acc : List (Str × Str) × List (Str × Str)) (pn : Str × Str) : List (Str × Str) × List (Str × Str) :=
+  if isDef dct all pn then (setCI (PackUri.ext pn.1) pn.2 acc.1, acc.2)
+  else (acc.1, acc.2 ++ [(pn.1, pn.2)])
+
+/-- `_ContentTypesItem._defaults_and_overrides` -/
 def ctItem (dct : List (Str × Str)) (xmlCT relsCT : Str) (parts : List (Str × Str)) :
     List (Str × Str) × List (Str × Str) :=
-  parts.foldl (fun (acc : List (Str × Str) × List (Str × Str)) (pn : Str × Str) =>
-    let (defaults, overrides) := acc
-    let ext := PackUri.ext pn.1
-    if inDefaults dct ext pn.2 && (defaultTypesOfExt dct parts ext).length == 1 then
-      (setCI ext pn.2 defaults, overrides)
-    else (defaults, overrides ++ [(pn.1, pn.2)]))
-    ([("rels".toList, relsCT), ("xml".toList, xmlCT)], [])
+  parts.foldl (ctStep dct parts) ([("rels".toList, relsCT), ("xml".toList, xmlCT)], [])
 
 /-- the writer before the fix: the last default-able part of an extension decides its Default -/
 def ctItemLastWins (dct : List (Str × Str)) (xmlCT relsCT : Str) (parts : List (Str × Str)) :
